@@ -95,6 +95,10 @@ function nameCases(ctx) {
   for (const n of ['if', 'var', 'R', 'C', 'D', 'U', 'N', 'T', 'E', 'arguments', 'eval', 'let', 'yield', 'undefined', '$x', 'a-b', "a'b"]) {
     out.push({ cls: 'scope-name', detail: { name: n }, files: [['p', `<a wx:for="{{l}}" wx:for-item="${attrEsc(n)}" wx:for-index="i_${attrEsc(n)}">{{ ${/^[A-Za-z_$][\w$]*$/.test(n) ? n : 'x'} }}</a><c><d slot:v="${attrEsc(n)}">{{v}}</d></c>`]] })
   }
+  // names of slot values (`slot:NAME`): attribute-name characters, keywords (a warning at most; code is still emitted)
+  for (const n of ['a', 'if', 'new', 'var', 'a-b', 'a.b', 'a...', '1a', 'é', 'a$', 'a_b', 'a:b', 'class', 'R', 'V', 'W', 'X', 'constructor', '__proto__', 'a+b', 'a*/b', '-', '.']) {
+    out.push({ cls: 'slot-value-name', detail: { name: n }, files: [['p', `<c><d slot:${n}>{{ ${/^[A-Za-z_$][\w$]*$/.test(n) && !['if', 'new', 'var', 'class'].includes(n) ? n : 'x'} }}</d><e slot:${n}="v" slot:z>{{v}}{{z}}</e></c>`]] })
+  }
   // data field names that are JS keywords or runtime letters
   for (const n of ['if', 'var', 'new', 'delete', 'in', 'class', 'function', 'R', 'C', 'D', 'U', 'K', 'A', 'X', 'Y', 'Z', 'P', 'Q', '__proto__', 'constructor', 'prototype', '$', '_']) {
     out.push({ cls: 'field-name', detail: { name: n }, files: [['p', `<a v="{{ ${n} }}" w="{{ x.${n} }}" u="{{ {${n}: 1, ...o} }}" t="{{ {${n}} }}">{{ ${n} ? ${n} : 0 }}</a><b wx:if="{{ ${n} }}"/><template is="t" data="{{ ${n} }}"/>`]] })
